@@ -202,3 +202,13 @@ Definition eqb_sres (a b : sres) : bool :=
 Fixpoint eqb_sress (a b : list sres) : bool :=
   match a, b with [], [] => true | x :: a', y :: b' => eqb_sres x y && eqb_sress a' b' | _, _ => false end.
 Definition chk_bseek (data : list N) (ops : list sop) (obs : list sres) : bool := eqb_sress (abs_run data 0 ops) obs.
+
+(** load-path array accessors: outcome code reported by the harness: 0 + length = no panic with that many elements (code = len),
+    then 1000000 = index panic, 1000001 = assertion panic *)
+Definition arr_code {T} (r : ares (list T)) : N :=
+  match r with AOk l => N.of_nat (length l) | APanic PIndex => 1000000 | APanic _ => 1000001 end.
+Definition chk_arrs (bytes : list N) (base : Z) (maxArr : Z) (cs ct cf : N) : bool :=
+  match decode_from base bytes maxArr with
+  | DOk d _ => (arr_code (r_strings (d_kv d) k_tokens) =? cs) && (arr_code (r_uints (d_kv d) k_token_type) =? ct) && (arr_code (r_floats (d_kv d) k_scores) =? cf)
+  | _ => true
+  end.
